@@ -113,7 +113,9 @@ func runC10(r *R) {
 		for _, i := range ents {
 			b := sp.Behaviours[i]
 			acc := map[string]bool{}
-			key := func(proto int, netOK bool, timeout bool) string { return fmt.Sprintf("%d/%v/%v", proto, netOK, timeout) }
+			key := func(proto int, netOK bool, timeout bool) string {
+				return fmt.Sprintf("%d/%v/%v", proto, netOK, timeout)
+			}
 			switch {
 			case b.GotResponse && b.BodyOK:
 				acc[key(b.Status, true, false)] = true
